@@ -214,6 +214,30 @@ func c06Requests(w *mintops.W, honest []c06Req, pairs bool) []c06Req {
 	}
 	// semantically invalid requests
 	act := w.M.ActiveID()
+	// crafted NUT-10 secrets inside an input (the lock is evaluated before the mint's signature, so no valid C is needed)
+	if u := w.UnspentIdx(1); len(u) > 0 {
+		base := w.Proofs[u[0]].P
+		mid := "aaaaaaaaaaaaaaaaaaaaaaaaaaaaaaaaaaaaaaaaaaaaaaaaaaaaaaaaaaaaaaaa"
+		for _, m := range w.Melts {
+			mid = m.Q.Id
+		}
+		for _, m := range grammar.Nut10Secrets("02" + strings.Repeat("11", 32)) {
+			p := base
+			p.Secret = m.Body
+			for _, wit := range []string{"", `{"signatures":["00"],"preimage":"00"}`} {
+				pj := proofsJSON(cashu.Proofs{p})
+				cls := "inputs[].secret:nut10:" + m.Class
+				if wit != "" {
+					pj[0]["witness"] = wit
+					cls += "+witness"
+				}
+				out = append(out, c06Req{Endpoint: "swap", Method: "POST", Path: "/v1/swap", Class: cls,
+					Body: jsonStr(map[string]any{"inputs": pj, "outputs": msgsJSON(w.U.Outputs(act, 1))})})
+				out = append(out, c06Req{Endpoint: "melt", Method: "POST", Path: "/v1/melt/bolt11", Class: cls,
+					Body: jsonStr(map[string]any{"quote": mid, "inputs": pj})})
+			}
+		}
+	}
 	for i, p := range w.Proofs {
 		if p.St != mintops.Unspent && i < 4 {
 			out = append(out, c06Req{Endpoint: "swap", Method: "POST", Path: "/v1/swap", Class: "semantic:used-input",
